@@ -6,6 +6,7 @@ import Orx.GenThms.Vec
 import Orx.GenThms.Arr
 import Orx.GenThms.Range
 import Orx.Props.C07
+import Orx.GenThms.Defaults
 /-! # C02 Index fidelity: a reported index is the element's source position -/
 namespace Orx.Props.C02
 open Orx Orx.KS
@@ -113,5 +114,16 @@ theorem iter_handover_is_race_free (s : IW.Script) (ps : Nat → List IW.Req) (h
                        ((IW.hrunS C07.srcOrds s σ (IW.hinit ps)).core.th t).pc = .ins r b acc) :
     (IW.hrunS C07.srcOrds s σ (IW.hinit ps)).last.le ((IW.hrunS C07.srcOrds s σ (IW.hinit ps)).clk t) :=
   C07.hb_chain_under_stale_reads s ps hok σ hW t huse
+
+
+open Orx.RS Orx.Gen Orx.GenThms in
+/-- **`next()` as in the source** (the trait's default method: `next_id_and_value().map(|x| x.value)`): the element at the
+counter value read by the one `fetch_add(1)`, for every kind — the value of a range is `start + c` -/
+theorem source_next_is_the_element_at_the_counter (len a b c : Nat) (evs dr) (ha : a < W) (hb : b < W) :
+    Slice.next (slice len) (st c evs dr) = .ok (if c < len then some c else none) (st (wrapAdd c 1) (evs ++ [faa c 1]) dr) ∧
+    Vec.next (vec len) (st c evs dr) = .ok (if c < len then some c else none) (st (wrapAdd c 1) (evs ++ [faa c 1]) dr) ∧
+    Arr.next len (arr len) (st c evs dr) = .ok (if c < len then some c else none) (st (wrapAdd c 1) (evs ++ [faa c 1]) dr) ∧
+    Range.next (range a b) (st c evs dr) = .ok (if c < b - a then some (a + c) else none) (st (wrapAdd c 1) (evs ++ [faa c 1]) dr) :=
+  ⟨slice_next len c evs dr, vec_next len c evs dr, arr_next len c evs dr, range_next a b c evs dr ha hb⟩
 
 end Orx.Props.C02
